@@ -472,14 +472,16 @@ func trimPathPrefix(u *url.URL, prefix string) *url.URL {
 	if u.RawQuery != "" || u.ForceQuery == true {
 		trimmedURI = trimmedPath + "?" + u.RawQuery
 	}
-	if u.Fragment != "" {
-		trimmedURI = trimmedURI + "#" + u.Fragment
-	}
-	trimmedURL, err := url.Parse(trimmedURI)
+	// Parse as a request-target (origin-form): with url.Parse a trimmed path
+	// such as "//evil.example/x" would be taken for an authority, putting a
+	// foreign host into r.URL (and into redirects built from it).
+	trimmedURL, err := url.ParseRequestURI(trimmedURI)
 	if err != nil {
 		log.Printf("[ERROR] Unable to parse trimmed URL %s: %v", trimmedURI, err)
 		return u
 	}
+	trimmedURL.Fragment = u.Fragment
+	trimmedURL.RawFragment = u.RawFragment
 	return trimmedURL
 }
 
